@@ -808,6 +808,72 @@ def two_filesets_case(rec, rng):
         shutil.rmtree(root, ignore_errors=True)
 
 
+_BAD = set()
+
+
+def reader_scaled(file_info, scale=1):
+    with open(file_info.path) as fh:
+        fid = int(fh.read())
+    if fid in _BAD:
+        raise ReadBoom("cannot read file %d" % fid)
+    return fid * scale
+
+
+def sum_content(content):
+    return sum(content) if isinstance(content, (list, tuple)) else content
+
+
+def read_options_case(rec, rng):
+    """Bundles with one unreadable member under error_to_warning, and per-call read_args followed by calls
+    without them (call history on one FileSet)."""
+    from typhon.files import FileSet, FileHandler
+    root = scratch_dir("c10r")
+    try:
+        n = 6
+        files = build_tree(root, n, prefix="p")
+        ids = [f[3] for f in files]
+        s0, s1 = dt.datetime(2017, 6, 1), dt.datetime(2017, 6, 3)
+        for wt in ("thread", "process"):
+            fs = FileSet(path="%s/p/%s" % (root, TEMPLATE), name="R", handler=FileHandler(reader=reader_scaled),
+                         worker_type=wt, read_args={"scale": 3})
+            case = {"kind": "read-options", "worker_type": wt}
+            rec.ev()
+            rec.count("exec.read_options")
+            try:
+                # 1. a bundle of two files of which one cannot be read: warning + None for that bundle
+                bad = rng.choice(ids)
+                _BAD.clear()
+                _BAD.add(bad)
+                with warnings.catch_warnings(record=True) as wl:
+                    warnings.simplefilter("always")
+                    got = fs.map(sum_content, start=s0, end=s1, bundle=2, on_content=True,
+                                 error_to_warning=True, max_workers=2)
+                _BAD.clear()
+                want = [None if bad in ids[k:k + 2] else 3 * sum(ids[k:k + 2]) for k in range(0, n, 2)]
+                if got != want:
+                    rec.violation("results-wrong", case,
+                                  {"why": "bundle with one unreadable member under error_to_warning",
+                                   "got": got, "want": want, "unreadable": bad})
+                elif wt == "thread" and not wl:
+                    rec.violation("read-error-no-warning", case, {"warnings": []})
+                # 2. per-call read arguments, then calls that rely on the fileset's defaults again
+                a = fs.collect(s0, s1, read_args={"scale": 10})
+                b = fs.collect(s0, s1)
+                c = fs.map(sum_content, start=s0, end=s1, on_content=True, max_workers=2)
+                if a != [10 * i for i in ids] or b != [3 * i for i in ids] or c != [3 * i for i in ids]:
+                    rec.violation("results-wrong", case,
+                                  {"why": "per-call read_args, then calls without them", "with_args": a[:4],
+                                   "collect_after": b[:4], "map_after": c[:4], "ids": ids[:4]})
+            except Exception as exc:
+                rec.violation("unexpected-exception", case, {"exception": repr(exc),
+                                                             "trace": traceback.format_exc()[-1500:]})
+            finally:
+                _BAD.clear()
+    finally:
+        gc.collect()
+        shutil.rmtree(root, ignore_errors=True)
+
+
 _LAZY = {"event": None, "last": None, "gave_up": False}
 
 
@@ -868,6 +934,8 @@ def tail_laziness_case(rec, rng):
 def run_shard(spec, rec):
     if 4 <= spec["shard"] < 8:
         tail_laziness_case(rec, rng_for(spec["seed"], "c10-lazy", spec["shard"]))
+    if 8 <= spec["shard"] < 11:
+        read_options_case(rec, rng_for(spec["seed"], "c10-readopt", spec["shard"]))
     if spec["shard"] < 4:
         two_filesets_case(rec, rng_for(spec["seed"], "c10-two", spec["shard"]))
     if spec["kind"] == "enum":
@@ -884,6 +952,10 @@ def evidence_extra(counters, sets):
 
 
 def replay(case, rec):
+    if case.get("kind") == "read-options":
+        for k in range(3):
+            read_options_case(rec, rng_for(k, "c10-readopt-replay"))
+        return
     if case.get("kind") == "tail-laziness":
         for k in range(4):
             tail_laziness_case(rec, rng_for(k, "c10-lazy-replay"))
